@@ -26,13 +26,13 @@ import rpc_util
 import vkit
 
 LEVEL = "exploration"
-CLS_FIELDS = ["sig", "maint", "body", "tok", "basic", "ereq", "ehdr", "cnr", "obj", "ttl", "as", "flags", "peer"]
+CLS_FIELDS = ["sig", "maint", "body", "tok", "basic", "ereq", "ehdr", "cnr", "obj", "ttl", "as", "flags", "peer", "maint_at"]
 CLIENT_OPS = {"Get", "Head", "GetRange", "Put", "Delete", "SearchV2"}
 
 
 def category(c):
     k = c["cls"]
-    if k["maint"]:
+    if k["maint"] or k.get("maint_at"):
         return "maintenance"
     if k["sig"] != "ok":
         return "signature:" + k["sig"]
@@ -90,7 +90,8 @@ def run(ck):
         for c in calls:
             if category(c) == "valid" and c["m"] in CLIENT_OPS:
                 rep = c["events"][-1]
-                if not any(e["ev"] == "Eff" for e in c["events"]) or rep["code"] >= 1024 or rep["grpc"]:
+                degenerate = any(f in c["cls"].get("flags", "") for f in ("q_notpresent", "q_numgt"))   # answered without any lookup
+                if (not degenerate and not any(e["ev"] == "Eff" for e in c["events"])) or rep["code"] >= 1024 or rep["grpc"]:
                     raise vkit.Infra("valid control call is not served: %s -> %s" % (json.dumps({"m": c["m"], "cls": c["cls"]}), json.dumps(c["events"])))
         hdr_deny = [c for c in calls if category(c) == "eacl_header" and any(e["ev"] == "EACL" and e["a"] == "hdr" and e["res"] == "deny" for e in c["events"])]
         hdr_allow = [c for c in calls if c["cls"]["ereq"] == "nm" and c["cls"]["ehdr"] == "allow" and not c["cls"]["maint"] and c["m"] == "Get"
